@@ -30,7 +30,8 @@ cat > $dst/meta.json <<EOT
 {"property": "$pid", "name": "$name",
  "demo": "$demo", "demo_exit_on_clean_tree": $d0, "demo_exit_with_change": $d1,
  "unit_tests_with_change": $(/venv/bin/python -c "import json,sys;print(json.dumps(sys.argv[1]))" "$tsum"), "unit_tests_rc": $trc,
- "needs_to_manifest": "see notes.md",
+ "breaks_property": "$pid",
+ "needs_to_manifest": $(/venv/bin/python -c "import json,sys;print(json.dumps(json.load(open('/verif/tools/seed_needs.json')).get(sys.argv[1],'see notes.md')))" "$pid-$name"),
  "ran": "tools/verify_seed.sh $pid $name $*",
  "checks": [${res%,}]}
 EOT
